@@ -162,29 +162,7 @@ def r3(c):
     c.control('helper-wrapped expect_empty is accepted', okg)
 
 
-def limit_witnesses(P, b, const_path, value):
-    """calls in `b` whose success implies `count <= const`: limited_count(_, CONST) directly, or a helper whose
-    success exits all pass through such a call (depth 2); plus direct comparison edges against the constant"""
-    wit = []
-    for cs in b.calls():
-        if cs.is_(LIMITED) and len(cs.args) > 1 and (q.const_def(b, cs.args[1]) == const_path or q.const_val(b, cs.args[1]) == value):
-            wit.append((cs, q.outcomes(b, cs).get('success', [])))
-            continue
-        for nme in cs.names():
-            hb = P.get(nme)
-            if hb is None or nme == b.path:
-                continue
-            inner = [x for x in hb.calls(LIMITED) if len(x.args) > 1 and (q.const_def(hb, x.args[1]) == const_path or q.const_val(hb, x.args[1]) == value)]
-            if inner and all(any(q.dominated_by_any(hb, q.outcomes(hb, x).get('success', []), ex['node']) for x in inner) for ex in q.ok_exits(hb)):
-                wit.append((cs, q.outcomes(b, cs).get('success', [])))
-                break
-    edges = []
-    for (e, rel, a, bb) in q.cmp_facts(b):
-        if rel in ('le', 'lt'):
-            if (q.const_def(b, bb) == const_path or q.const_val(b, bb) == (value if rel == 'le' else value + 1)) and \
-                    ('count' in q.chain_names(b, a) or any('count' in p for p in q.sem(b, a).proj)):
-                edges.append(e)
-    return wit, edges
+limit_witnesses = q.limit_witnesses
 
 
 @rule('C01', 'R01.4', 'quantity limits: 2000 / 125 for reads, 1968 / 123 for multiple writes, enforced before a request is accepted')
@@ -689,3 +667,32 @@ def r12(c):
     ag = [s for _, s in n.aggregates('rodbus::types::Indexed')]
     ok = len(ag) == 1 and q.is_name(n, ag[0]['rv']['a'][ag[0]['rv']['fields'].index('index')], 'index') and q.is_name(n, ag[0]['rv']['a'][ag[0]['rv']['fields'].index('value')], 'value')
     c.ob('Indexed::new', ok, 'Indexed::new stores (index, value) in the same-named fields', '', loc_of(n))
+
+
+@rule('C01', 'R01.13', 'bit packing of read-coil replies: one cleared accumulator per byte, bit i at 1 << i, partial byte flushed last')
+def r13(c):
+    from rules.c03 import bit_packing_rule
+    path = '<rodbus::server::response::BitWriter<T> as rodbus::common::traits::Serialize>::serialize'
+    bit_packing_rule(c, path, 'acc', 'num_bits')
+    P = c.P
+    b = P.fn(path)
+    w8 = b.calls('scursor::write::WriteCursor::write_u8')
+    tail = [cs for cs in w8 if not b.in_cycle(cs.node) and 'acc' in q.chain_names(b, cs.args[1])]
+    facts = q.cmp_facts(b)
+    ok = len(tail) == 1 and q.has_fact(b, tail[0].node, 'lt', lambda o: q.const_val(b, o) == 0, lambda o: 'num_bits' in q.chain_names(b, o), facts)
+    c.ob('partial-byte', ok, 'after the loop a last partial byte is written iff num_bits > 0', '%d trailing writes' % len(tail), loc_of(b))
+    first = [cs for cs in w8 if not b.in_cycle(cs.node) and 'num_bytes' in q.chain_names(b, cs.args[1])]
+    okf = len(first) == 1 and all(b.dominates(first[0].node, o.node) for o in w8)
+    if okf:
+        s = q.sem(b, first[0].args[1])
+        okf = s.kind == 'call' and s.cs.is_('rodbus::common::serialize::calc_bytes_for_bits') and s.checked
+    c.ob('byte-count-first', okf, 'the byte count (checked calc_bytes_for_bits) is written before any data', '', loc_of(b))
+    # flush when 8 bits are collected
+    looped = [cs for cs in w8 if b.in_cycle(cs.node)]
+    if looped:
+        okh = q.has_fact(b, looped[0].node, 'eq', lambda o: 'num_bits' in q.chain_names(b, o), lambda o: q.const_val(b, o) == 8, facts)
+        c.ob('flush-at-8', okh, 'the accumulator is flushed when 8 bits have been merged', '', looped[0].loc())
+    rw = P.fn('<rodbus::server::response::RegisterWriter<T> as rodbus::common::traits::Serialize>::serialize')
+    w = [cs for cs in rw.calls('scursor::write::WriteCursor::write_u16_be') if rw.in_cycle(cs.node)]
+    okr = len(w) == 1 and bool(q.outcomes(rw, w[0]).get('success')) and 'value' in q.chain_names(rw, w[0].args[1])
+    c.ob('registers', okr, 'each register value obtained from the handler is written big-endian, checked, in address order', '%d looped writes' % len(w), loc_of(rw))
